@@ -8,6 +8,16 @@
 
 namespace vf {
 
+// Long mode: one case in sixteen multiplies run lengths and segment counts by eight (texts of several hundred
+// characters, paths of up to ~50 segments), so that the length-dependent parts (segment lists, recursion depth, size
+// arithmetic) are not only ever seen on short inputs. Decided by the first tape value of a case; 0 = normal.
+inline int &g_scale() { static int s = 1; return s; }
+struct LongMode {
+  explicit LongMode(Tape &t) { g_scale() = t.chance(15, 16) ? 1 : 8; }
+  ~LongMode() { g_scale() = 1; }
+  bool on() const { return g_scale() != 1; }
+};
+
 inline const char *UNRESERVED_EXTRA() { return "-._~"; }
 inline const char *SUBDELIMS() { return "!$&'()*+,;="; }
 
@@ -38,7 +48,7 @@ inline char g_subdelim(Tape &t) { return SUBDELIMS()[t.below(11)]; }
 // run of characters from: unreserved / pct / sub-delims / extra literal characters
 inline std::string g_run(Tape &t, int maxLen, const char *extra, bool allowPct = true) {
   std::string s;
-  int n = t.range(0, maxLen);
+  int n = t.range(0, maxLen * g_scale());
   size_t nx = strlen(extra);
   for (int i = 0; i < n; i++) {
     switch (t.weighted({8, allowPct ? 2 : 0, 2, nx ? 2 : 0})) {
@@ -192,7 +202,7 @@ struct GenUri {
 inline std::string g_path(Tape &t, bool hasScheme, bool hasAuth, int flavor = SEG_ANY, int maxSegs = 6) {
   int form = hasAuth ? t.weighted({1, 3, 0}) : t.weighted({1, 2, 3});
   if (form == 0) return "";
-  int n = t.range(form == 1 ? 0 : 1, maxSegs);
+  int n = t.range(form == 1 ? 0 : 1, maxSegs * g_scale());
   std::vector<std::string> segs;
   for (int i = 0; i < n; i++) segs.push_back(g_segment(t, flavor));
   if (form == 1) {
